@@ -45,7 +45,8 @@ CFG_JUDGE = "INIT Init\nNEXT Next\nCHECK_DEADLOCK FALSE\nINVARIANT Emit\n"
 
 BIG_CAP = 80          # "no cap" configuration: exact runs that do not cycle need far fewer iterations (invariant Terminates)
 TOL = 1e-9            # DESIGN 5.1: direct linear-algebra outputs
-WINDOW = 1e-4         # deviations inside msdm's own np.isclose tie window (rtol 1e-5, amplified) are not judged
+NEAR_RD = 2500        # reward denominator of the near-tie family: rewards differ by 1/2500 = 4e-4 or 2/2500 = 8e-4
+ISCLOSE_ATOL, ISCLOSE_RTOL = 1e-8, 1e-5     # np.isclose defaults = the tie window of msdm's improvement steps
 
 REPS = [
     dict(rep="quick", labels="int", alabels="int", explicit_list=False, dist="dict"),
@@ -71,9 +72,74 @@ FAMS = [
 # --------------------------------------------------------------------------------------------
 # cases
 # --------------------------------------------------------------------------------------------
+def near_tie_case(rng):
+    """Near-tie reward family (rewards = integers over RD = 2500): some non-absorbing state has two actions whose
+    one-step values differ by 4e-4 or 8e-4 - far outside np.isclose's default window (1e-8 + 1e-5 |q|), so the
+    planner must switch to the better one - and initial rules that start on the slightly worse action.
+      twin  (discounted 1/2, 3/4 and undiscounted): same successor row, every reward of `hi` = that of `lo` + d/RD
+            -> the bias-step action values differ by exactly d/RD;
+      gain  (undiscounted): `lo` leads to a recurrent state paying r, `hi` to one paying r + d/RD
+            -> the gain-step action values differ by d/RD (times the transition probability)."""
+    RD = NEAR_RD
+    d = rng.choice([1, 1, 2])
+    kind = rng.choice(["twin-disc", "twin-disc", "twin-undisc", "gain"])
+    if kind == "gain":
+        n_abs = rng.choice([0, 0, 1])
+        N, K = 3 + n_abs, rng.choice([2, 3])
+        lo, hi = rng.sample(range(K), 2)
+        base = rng.choice([-2, -1, 1, 2]) * RD
+        P = [[[0] * N for _ in range(K)] for _ in range(N)]
+        R = [[[0] * N for _ in range(K)] for _ in range(N)]
+        for a in range(K):                      # states 1, 2: recurrent singletons paying base, base + d
+            P[1][a][1] = 2; R[1][a][1] = base
+            P[2][a][2] = 2; R[2][a][2] = base + d
+        half = rng.random() < 0.5               # state 0 moves on with probability 1 or 1/2
+        for a in range(K):
+            tgt = 1 if a == lo else 2 if a == hi else rng.choice([1] + ([3] if n_abs else []))
+            if half:
+                P[0][a][0] = 1; P[0][a][tgt] = 1
+            else:
+                P[0][a][tgt] = 2
+            for t in range(N):
+                R[0][a][t] = rng.choice([-1, 0, 1]) * RD
+        if n_abs:                               # ghost dynamics of the absorbing state
+            for a in range(K):
+                P[3][a][rng.randrange(N)] = 2
+                R[3][a] = [rng.choice([-1, 0, 1]) * RD for _ in range(N)]
+        m = {"N": N, "K": K, "PD": 2, "GN": 1, "GD": 1, "ID": 2, "abs": [0, 0, 0] + [1] * n_abs,
+             "avail": [[1] * K for _ in range(N)], "P": P, "R": R, "p0": [2] + [0] * (N - 1)}
+        s = 0
+    else:
+        GN, GD = rng.choice([(1, 2), (3, 4)]) if kind == "twin-disc" else (1, 1)
+        while True:
+            m = gen.rand_mdp(rng, n_na=rng.choice([1, 2, 2]), n_abs=rng.choice([0, 1, 1, 2]) if GN < GD else rng.choice([0, 0, 1]),
+                             K=rng.choice([2, 3]), PD=2, GN=GN, GD=GD, rewards=(-2, -1, 0, 1, 2), ID=2, p_implicit=0.0)
+            if gen.ghost_closed(m):
+                break
+        m["R"] = [[[x * RD for x in row] for row in act] for act in m["R"]]
+        s = rng.choice([x for x in range(m["N"]) if not m["abs"][x]])
+        lo, hi = rng.sample(range(m["K"]), 2)
+        m["avail"][s][lo] = m["avail"][s][hi] = 1
+        m["P"][s][hi] = list(m["P"][s][lo])
+        m["R"][s][hi] = [x + d for x in m["R"][s][lo]]
+        m["p0"] = [m["ID"] if x == s else 0 for x in range(m["N"])]
+    m["RD"] = RD
+    m["CAP"] = BIG_CAP
+    return m, {"s": s, "lo": lo, "hi": hi, "kind": kind, "d": d}
+
+
 def make_cases(rng, n, tier):
     cases = []
     while len(cases) < n:
+        if len(cases) % 4 == 3:                 # every 4th case: near-tie reward family
+            m, tie = near_tie_case(rng)
+            if not gen.magnitude_ok(m, QD=3):
+                continue
+            rep = dict(REPS[rng.randrange(len(REPS))])
+            if not rep["explicit_list"] and not gen.ghost_closed(m):
+                rep["explicit_list"] = True
+            cases.append({"m": m, "rep": rep, "n_inits": 1, "all_rules": False, "tie": tie})
+            continue
         f = FAMS[len(cases) % len(FAMS)]
         undisc = f["GN"] == f["GD"]
         n_na = rng.choice([0, 1, 2, 2, 3, 3, 3, 3])
@@ -115,6 +181,9 @@ def prepare(case, tamper_build=None):
     m, rep = case["m"], case["rep"]
     rng = random.Random(digest(case))
     mb = tamper_build(m) if tamper_build else m
+    RD = m.get("RD", 1)
+    if RD != 1:                                   # msdm gets the real rewards R / RD, TLC the integer numerators
+        mb = dict(mb, R=[[[x / RD for x in row] for row in act] for act in mb["R"]])
     b = build.build_mdp(mb, rng=rng, **rep)
     sl, al = list(b.mdp.state_list), list(b.mdp.action_list)
     si = [b.sidx(x) for x in sl]
@@ -137,7 +206,7 @@ def prepare(case, tamper_build=None):
                     R[i][j][pos[t]] = m["R"][s][a][t]
     mp = {"N": N, "K": K, "PD": m["PD"], "GN": m["GN"], "GD": m["GD"], "ID": m["ID"],
           "abs": [m["abs"][s] for s in si], "avail": avail, "P": P, "R": R,
-          "p0": [m["p0"][s] for s in si], "CAP": m["CAP"]}
+          "p0": [m["p0"][s] for s in si], "CAP": m["CAP"], "RD": RD}
     if sum(mp["p0"]) != m["ID"]:
         raise TLCFailure("generator: initial support outside the state list")
     # initial decision rules (1-based, list order): random available actions, at absorbing states too
@@ -154,6 +223,14 @@ def prepare(case, tamper_build=None):
                 inits.append(r)
         for _ in range(case.get("n_inits", 2)):
             inits.append([rng.choice(a) for a in av])
+        tie = case.get("tie")
+        if tie and tie["s"] in pos and tie["lo"] in ai and tie["hi"] in ai:
+            # start on the slightly worse action of the near-tie state (twice) and on the better one
+            for act, reps_ in ((tie["lo"], 2), (tie["hi"], 1)):
+                for _ in range(reps_):
+                    r = [rng.choice(a) for a in av]
+                    r[pos[tie["s"]]] = ai.index(act) + 1
+                    inits.append(r)
     mp["inits"] = inits
     return b, mp
 
@@ -343,24 +420,44 @@ def run_fn(b, rule, cap):
 # comparisons
 # --------------------------------------------------------------------------------------------
 def dev(x, exact):
-    """Deviation class of a float against an exact value: 'ok', 'window' (inside msdm's tie window), 'bad'."""
+    """'ok' iff the float equals the exact value at 1e-9 relative (DESIGN 5.1), else 'bad'."""
     if exact is None:
         return "ok"
     if isinstance(exact, float):               # +-inf
         return "ok" if x == exact else "bad"
     if not math.isfinite(x):
         return "bad"
-    d = abs(x - float(exact))
-    scale = max(1.0, abs(float(exact)))
-    if d <= TOL * scale:
-        return "ok"
-    return "window" if d <= WINDOW * scale else "bad"
+    return "ok" if abs(x - float(exact)) <= TOL * max(1.0, abs(float(exact))) else "bad"
 
 
 def same(x, exact):
     if exact is None:                           # UNAV: -inf in the code's tables
         return x == float("-inf")
     return dev(x, exact) == "ok"
+
+
+def fr(x, rd=1):
+    """[n, d] from TLC in units of 1/rd -> Fraction / +-inf / None."""
+    v = frac(x)
+    return v / rd if isinstance(v, F) else v
+
+
+def inside_isclose_window(jr, got, rd):
+    """Is a converged run whose result differs from the optimum explained by msdm's OWN tie tolerance?
+    Yes iff (a) the reported values are the exact evaluation of the returned policy (1e-9), and (b) the rule the
+    policy rests on passes the code's stopping tests with exact numbers: every gain / bias gap computed by the
+    spec (StopGaps) is within np.isclose's default window 1e-8 + 1e-5 |max|.  Anything else - in particular a
+    kept action that is worse by more than that window - is not excused."""
+    if jr is None or not jr.get("wellformed") or not jr.get("stop"):
+        return False
+    for s, x in enumerate(got):
+        if dev(x, fr(jr["pv"][s], rd)) != "ok":
+            return False
+    for st in jr["stop"]:
+        for gap, mx in (("ggap", "gmax"), ("bgap", "bmax")):
+            if float(fr(st[gap], rd)) > ISCLOSE_ATOL + ISCLOSE_RTOL * abs(float(fr(st[mx], rd))):
+                return False
+    return True
 
 
 def int_weights(row):
@@ -381,7 +478,7 @@ def shape_of(orc, mp):
     return base + ("+absorbing" if has_abs else "")
 
 
-def machine_explains(mrec, o, plan):
+def machine_explains(mrec, o, plan, rd=1):
     """First difference between a machine record and a real run, or None (DRIFT level only)."""
     if "error" in o:
         if mrec["phase"] == "cap" and not mrec["bqdef"] and o["error"] == "UnboundLocalError":
@@ -395,14 +492,14 @@ def machine_explains(mrec, o, plan):
         return f"iterations/converged: machine {mrec['its']}/{mrec['conv']} code {o['its']}/{o['conv']}"
     N = len(mrec["g"])
     for s in range(N):
-        if not same(o["gain"][s], frac(mrec["g"][s])):
+        if not same(o["gain"][s], fr(mrec["g"][s], rd)):
             return f"gain[{s}]: machine {mrec['g'][s]} code {o['gain'][s]}"
-        if not same(o["val"][s], frac(mrec["h"][s])):
+        if not same(o["val"][s], fr(mrec["h"][s], rd)):
             return f"bias[{s}]: machine {mrec['h'][s]} code {o['val'][s]}"
         for a in range(len(mrec["gq"][s])):
-            if not same(o["gq"][s][a], frac(mrec["gq"][s][a])):
+            if not same(o["gq"][s][a], fr(mrec["gq"][s][a], rd)):
                 return f"action_gain[{s}][{a}]: machine {mrec['gq'][s][a]} code {o['gq'][s][a]}"
-            if mrec["bqdef"] and not same(o["bq"][s][a], frac(mrec["bq"][s][a])):
+            if mrec["bqdef"] and not same(o["bq"][s][a], fr(mrec["bq"][s][a], rd)):
                 return f"action_bias[{s}][{a}]: machine {mrec['bq'][s][a]} code {o['bq'][s][a]}"
     if plan:
         if mrec["phase"] == "done":
@@ -454,19 +551,23 @@ def judge_cases(ctx, cases, *, tamper_build=None, tamper_real=None, steps=True):
         orc = orcs.get(i)
         if orc is None:
             raise TLCFailure(f"no oracle record for case {i}")
-        exact = [frac(x) for x in orc["v"]]
+        rd = orc["rd"]
+        if rd != mp["RD"]:
+            raise TLCFailure(f"reward denominator of case {i}: spec {rd}, harness {mp['RD']}")
+        raw = [frac(x) for x in orc["v"]]                 # in units of 1/rd, as TLC and the Python oracles compute
+        exact = [x / rd for x in raw]
         # ---- machinery cross-checks of the TLA+ oracle
         if i % 3 == 0:
             pv = py_optimum(mp)
-            if any(pv[s] != exact[s] for s in range(mp["N"])):
-                raise TLCFailure(f"TLA+ oracle and Python oracle disagree on case {i}: {exact} vs {pv}")
+            if any(pv[s] != raw[s] for s in range(mp["N"])):
+                raise TLCFailure(f"TLA+ oracle and Python oracle disagree on case {i}: {raw} vs {pv}")
             ctx.count("oracle_crosschecks_fraction")
         if i % 5 == 0 and not orc["disc"]:
             lg = lp_gain(mp)
             if lg is None:
                 ctx.count("lp_unsolved")
             else:
-                if any(abs(lg[s] - float(exact[s])) > 1e-6 for s in range(mp["N"])):
+                if any(abs(lg[s] / rd - float(exact[s])) > 1e-6 for s in range(mp["N"])):
                     raise TLCFailure(f"TLA+ gain oracle and the multichain LP disagree on case {i}: {exact} vs {lg}")
                 ctx.count("oracle_crosschecks_multichain_lp")
         # ---- real executions
@@ -664,7 +765,7 @@ def judge_one(ctx, jby, steps, i, c, b, mp, orc, exact, myruns, outs):
             if frm in stops:
                 mrec = stops[frm]
                 okstep = "error" not in o and tuple(o["pol"]) == frm and all(
-                    same(o["gain"][s], frac(mrec["g"][s])) and same(o["val"][s], frac(mrec["h"][s])) for s in range(N))
+                    same(o["gain"][s], fr(mrec["g"][s], rd)) and same(o["val"][s], fr(mrec["h"][s], rd)) for s in range(N))
                 ctx.count("step_replay:stop")
                 expected = "stop"
             else:
